@@ -433,7 +433,7 @@ theorem walk_root_max :
         [({ x := 1, cofactor := 5, cyclelen := 1, factors := [(3, 1)] }, none),
          ({ x := 1, cofactor := 21474836475, cyclelen := 1, factors := [] }, some (5, 4294967295))]
         (Store.new 7 1 4294967295) with
-      | .error .overflow => true
+      | .error .panic => true
       | _ => false) = true := by
   decide +kernel
 
